@@ -48,6 +48,10 @@ func (g *c08Gen) argValue(vars []string) *mj.Expr {
 	if g.n(0, 3, "argnum") == 0 {
 		return mj.Num(float64(g.n(0, 9, "argnumv")))
 	}
+	if g.n(0, 5, "argdot") == 0 {
+		g.labels["argument-or-default-reads-dot"] = true
+		return mj.Dot() // the context of the yield / definition site, not the one handed to the block
+	}
 	return mj.Str(g.id("arg"))
 }
 
@@ -109,6 +113,13 @@ func (g *c08Gen) yield(file string, minIdx int, vars []string, depth int, inUses
 		}
 		n.Content = append(n.Content, mj.Text("</c>"))
 		out = append(out, n, mj.Text("("+cv+"="), mj.Print(mj.Var(cv)), mj.Text(")"))
+		if g.n(0, 3, "defInContent") == 0 {
+			// a block defined inside the content: rendered where it stands, and known by name to the whole file
+			name := "CB" + g.id("")
+			g.labels["block-defined-inside-content"] = true
+			n.Content = append(n.Content, &mj.Node{K: "block", Name: name, Body: []*mj.Node{mj.Text("«" + name + "»")}})
+			out = append(out, mj.Text("{by name:"), &mj.Node{K: "yield", Name: name}, mj.Text("}"))
+		}
 		return out
 	}
 	return []*mj.Node{n}
